@@ -536,4 +536,14 @@ def r_shared_r10(ctx):
 EXPLANATION = EXPLANATION + (' (R10) every retransmission carries the message number first used, per fragment in fragment order (shared C04.R3): a copy re-sent '
                              'under a number the peer has already recorded is dropped there as a duplicate, its datagram is acknowledged, and the message is never delivered.')
 
-RULES = [("C05.R6", r6), ("C05.R1", r1), ("C05.R2", r2), ("C05.R3", r3), ("C05.R4", r4), ("C05.R5", r5), ("C05.R7", r7), ("C05.R8", r8), ("C05.R9", r_shared_r9), ("C05.R10", r_shared_r10)]
+def r_shared_r11(ctx):
+    """every callback registered for a resolved datagram runs, each contained on its own (shared C07.R1): the re-queue of a lost guaranteed message or fragment is one of those callbacks - a user callback that raises in front of it must not keep it from running"""
+    from . import c07 as _m
+    from .c02 import _Sub
+    for _f in ['r1']:
+        getattr(_m, _f)(_Sub(ctx, "C05.R11"))
+
+
+EXPLANATION = EXPLANATION + ' (R11) the callbacks of a resolved datagram run each inside its own containment (shared C07.R1): the retry chain lives in those callbacks, so one raising user callback must not skip the re-queue of a fragment that travelled in the same datagram.'
+
+RULES = [("C05.R6", r6), ("C05.R1", r1), ("C05.R2", r2), ("C05.R3", r3), ("C05.R4", r4), ("C05.R5", r5), ("C05.R7", r7), ("C05.R8", r8), ("C05.R9", r_shared_r9), ("C05.R10", r_shared_r10), ("C05.R11", r_shared_r11)]
